@@ -365,7 +365,9 @@ def showSnapshot (st : DState) (a : Actor) : String :=
   let cache := ",".intercalate (sortStrings (a.core.cache.iter.map fun p => s!"{hexId p.1}:{kindNo p.2.kind}:{p.2.subnets}:{p.2.nodes.length}"))
   -- sums are shown without their 12 lowest mantissa bits: lookups that finish in the same tick are
   -- added in `HashMap` order, and float addition is not associative
-  let hex64 (f : Float) := String.ofList (Nat.toDigits 16 (f.toBits.toNat >>> 12))
+  -- lookups that finish in one tick are added in `HashMap` order on the implementation side and float
+  -- addition is not associative: the sums are shown in 1/64 units (residues of a few ulps vanish)
+  let hex64 (f : Float) := toString (Float.round (f * 64.0)).toInt64
   let stat (s : Stats) := s!"{s.estCount}/{s.respCount}/{s.subnetsSum}/{hex64 s.estSum}/{hex64 s.respSum}"
   s!"iter=[{ids (a.core.iter.map (·.1))}] puts=[{ids (a.core.puts.map (·.1))}] putsenders=[{cnt a.putSenders}] getsenders=[{cnt a.getSenders}] live={live} raw={a.sock.requests.length} cap={a.sock.cap} to={a.sock.timeout} cache=[{cache}] stats={stat a.core.stats} sstats={stat a.core.sstats} mode={if a.core.serverMode then "s" else "c"}{if a.sockServerMode then "s" else "c"} fw={if a.core.firewalled then 1 else 0} pub={match a.core.publicAddress with | none => "none" | some x => showAddr x} rt=[{table a.core.rt}] srt=[{table a.core.srt}]"
 
